@@ -5,7 +5,7 @@ from ..model import qast
 
 CELLS = ['', 'a', 'b', 'ab', 'ba', '0', '1', '2', '10', '-1', '2.5', 'x|y', 'a b', 'É', "it's", 'q"t', ',', 'NR', 'None', 'a1', ' ']
 SMALL_CELLS = ['a', 'b', 'ab', '1', '2', '10', '']
-NAME_POOL = ['name', 'age', 'x1', 'Col_3', 'home_town', 'x y', 'Dist (km)', 'q"uote', "it's", 'Total%', 'k#1', 'été', 'b_c', 'zz', 'v', 'A', 'a_', 'ID', 'x-y', '[k]', 'back\\slash', 'tab\there', '', 'NR', 'NF', 'NU']
+NAME_POOL = ['name', 'age', 'x1', 'Col_3', 'home_town', 'x y', 'Dist (km)', 'q"uote', "it's", 'Total%', 'k#1', 'été', 'b_c', 'zz', 'v', 'A', 'a_', 'ID', 'x-y', '[k]', 'back\\slash', 'tab\there', '', 'NR', 'NF', 'NU', 'col1', 'col2', 'col3', 'col4']
 STR_LITS = ['', 'x', 'ab', ' ', 'a,b', 'a)b', '(', 'x, y', "it's", 'q"t', '[1]', 'É', '%', 'a1', '#', '=', ';', '$$', 'a$&b', 'US$', '$1', "$'", 'x\\\\', 'such as x, y', 'n,COUNT(*)', 'cols: a, *, b', ' as z', 'top 1 distinct']
 LIKE_PATS = ['%', 'a%', '%b', '_', 'a_', '%a%', 'ab', '_%', '1%', '%.%', 'x|y', '']
 
@@ -16,7 +16,10 @@ INT_CELLS = [0, 1, 2, 3, 7, 10, 12, 1, 2]
 def gen_table(rng, max_rows=6, max_cols=4, ragged_p=0.25, none_p=0.08, cells=None, min_rows=0, wide_p=0.04, min_cols=1, int_col_p=0.1):
     cells = cells or (CELLS if rng.random() < 0.5 else SMALL_CELLS)
     n = rng.randrange(min_rows, max_rows + 1)
-    if rng.random() < 0.04:
+    r_ = rng.random()
+    if r_ < 0.003:
+        n = rng.choice([257, 300, 520])      # beyond any plausible internal batch / buffer / pruning size
+    elif r_ < 0.04:
         n = rng.randrange(max_rows, 40)
     w = rng.randrange(min_cols, max_cols + 1)
     if rng.random() < wide_p:
